@@ -19,7 +19,7 @@ BUDGET = {"quick": 300, "thorough": 3000}
 RULE = (
     "Post-conditions attached to PeriodicGrid.__init__ and PeriodicGrid.get_localgrid fire on every call in the process. "
     "get_localgrid: the multiset of (parent index, integer lattice translation) recovered from lg.indices and "
-    "lg.points - parent.points[lg.indices] (must be an integer combination of the lattice vectors to 1e-9) equals the brute-force "
+    "lg.points - parent.points[lg.indices] (must be an integer combination of the lattice vectors to 1e-8) equals the brute-force "
     "enumeration over a rigorously bounded integer box with a plain distance test (no k-d tree), outside a 1e-9 relative tie band; no "
     "pair twice; weights == parent weights; centre kept; empty sphere => size-0 LocalGrid. __init__: recivecs.realvecs^T = I and equal to "
     "the dual basis from a linear solve, spacings = distance of a_k from the span of the other vectors, wrapped points have fractional "
@@ -40,7 +40,8 @@ ASSUMPTIONS = [
 LEVEL_TEXT = "Held on the explored cells, point sets, centres and radii (random, structured and hostile families) against an exhaustive image enumeration."
 TECHNIQUE = "runtime monitoring: post-conditions on PeriodicGrid.__init__/get_localgrid with a brute-force periodic image reference model"
 
-TOL_LATTICE = 1e-9
+TOL_LATTICE = 1e-9  # constructor attributes (largest value seen 2e-12)
+TOL_TRANSLATION = 1e-8  # recovered translation must be an integer lattice combination (largest value seen 7e-12 with 1:50 cells +-10 cells away; a wrong image is off by >= 1)
 TOL_COPY = 1e-12
 MAX_MONITOR_WORK = 4e7  # translations x points the monitor is willing to enumerate for one call
 MAX_TRANSLATIONS = 20000  # workload: shrink the radius until the reference box has at most this many translations
@@ -185,7 +186,7 @@ def check_periodic_localgrid(ctx, g, center, radius, lg, exc):
         m = max(float(np.abs(jf - j).max()), float(np.abs(t - j @ A).max()) / scale)
     else:
         m = 0.0
-    ctx.check("translation-is-lattice-vector", subj, m, TOL_LATTICE, sig="non-lattice-displacement" + tail)
+    ctx.check("translation-is-lattice-vector", subj, m, TOL_TRANSLATION, sig="non-lattice-displacement" + tail)
     if not m <= 1e-3:
         return  # the pairs cannot be recovered
     pairs = [(int(i), tuple(int(v) for v in row)) for i, row in zip(idx, j)]
@@ -417,7 +418,11 @@ def pick_periodic_query(rng, g, A, full, mode):
         r = float(rng.choice([smin, smax])) * float(rng.uniform(2.5, 3.5))
     else:  # "tie" / "neartie": radius taken from the actual image distances
         r = smin * float(rng.uniform(0.5, 1.5))
-    while r > 0 and pref.image_count(P, A, c, r) > MAX_TRANSLATIONS:
+    # bounded brute-force cost: the box never shrinks below the span of the points themselves (r = 0), so allow twice that
+    limit = max(MAX_TRANSLATIONS, 2 * pref.image_count(P, A, c, 0.0))
+    for _ in range(40):
+        if r <= 0 or pref.image_count(P, A, c, r) <= limit:
+            break
         r *= 0.6
     if mode in ("tie", "neartie"):
         _, may = pref.images(P, A, c, r)
@@ -430,6 +435,10 @@ def pick_periodic_query(rng, g, A, full, mode):
 
 def do_periodic_query(ctx, g, A, full, mode):
     c, r = pick_periodic_query(ctx.rng, g, A, full, mode)
+    if pref.image_count(pref.as2d(np.asarray(g.points)), A, c, r) > 10 * MAX_TRANSLATIONS:
+        # the point set itself spans so many cells (non-lattice direction of a 1:50 cell) that even r -> 0 needs > 2e5 translations
+        ctx.count("op:query-skipped-point-set-too-wide")
+        return None
     flat = np.asarray(g.points).ndim == 1
     cc = c10mod._fmt_center(ctx.rng, c, flat)
     rr = c10mod._fmt_radius(ctx.rng, r)
